@@ -270,6 +270,20 @@ class C03(RT):
 
     def distribution(self, cases, observations):
         d = super().distribution(cases, observations)
+        # row-polymorphic calls: value inputs of the instantiation vs inputs of the polymorphic body (seeded C03-c / D13)
+        rp = {"fewer": 0, "equal": 0, "more": 0}
+        statics = 0
+        for o in observations:
+            for a in ([o["a"]] if "a" in o else [m["a"] for m in o.get("mods", []) if "a" in m]):
+                for n in a["nodes"]:
+                    op = n["op"]
+                    if op.get("op") in ("Call", "LoadFunction", "LoadConstant"):
+                        statics += 1
+                    if op.get("op") == "Call" and any(p.get("tp") == "List" for p in op["func_sig"]["params"]):
+                        x, y = len(op["instantiation"]["input"]), len(op["func_sig"]["body"]["input"])
+                        rp["fewer" if x < y else "more" if x > y else "equal"] += 1
+        d["row_polymorphic_calls_instantiation_vs_body_inputs"] = rp
+        d["nodes_with_a_static_input"] = statics
         sizes = sorted(len(t) for o in observations for _, t, _ in o.get("schema_docs", []))
         d["schema_documents"] = {"count": len(sizes), "bytes": sum(sizes),
                                  "median_bytes": sizes[len(sizes) // 2] if sizes else 0,
